@@ -786,6 +786,9 @@ func (cl *compiler) linkJumps() {
 	for _, l := range cl.labels {
 		for _, jumpPos := range l.sources {
 			offset := l.targetPos - jumpPos
+			if offset < -32768 || offset > 32767 {
+				panic(compileError(fmt.Sprintf("jump offset %d does not fit into 16 bits", offset)))
+			}
 			patchPos := jumpPos + 1
 			put16(cl.code, patchPos, offset)
 		}
@@ -816,6 +819,9 @@ func (cl *compiler) emitJump(op opcode, l *label) {
 }
 
 func (cl *compiler) emit8(op opcode, arg8 int) {
+	if arg8 < 0 || arg8 > 255 {
+		panic(compileError(fmt.Sprintf("%s operand %d does not fit into 8 bits", op, arg8)))
+	}
 	cl.emit(op)
 	cl.code = append(cl.code, byte(arg8))
 }
